@@ -160,6 +160,8 @@ def impl_merge(case):
             out["error"] = "E_KEYS"
         except ValueError as e:
             out["error"] = "E_NORESULTS" if "no results" in str(e) else "E_VALUE:" + str(e)[:60]
+        except Exception as e:  # anything else is a crash of merge_results, judged by the oracle
+            out["error"] = "E_CRASH:" + type(e).__name__ + ":" + str(e)[:60]
     out["inputs_unchanged"] = [bits(r_) for r_ in rs] == before and all(
         list(r_.np_arrays.keys()) == list(ab.keys()) and all(r_.np_arrays[k] is ab[k] for k in ab) for r_, ab in zip(rs, arrays_before))
     return out
@@ -233,6 +235,8 @@ def impl_table(case):
                 out["status"] = "exit:%s" % (e.code,)
             except result.ResultException:
                 out["status"] = "E_KEYS"
+            except Exception as e:
+                out["status"] = "crash:" + type(e).__name__ + ":" + str(e)[:60]
         out["inputs_unchanged"] = [open(p, "rb").read() for p in paths] == file_bytes
         if os.path.exists("table.csv"):
             rows = list(csv.reader(open("table.csv", newline="")))
